@@ -58,10 +58,13 @@ func VerifGetChars(buf []byte, later []byte, mouse bool, yoffset int, max int) [
 	case <-time.After(300 * time.Millisecond):
 		// waiting for input: release the reader and report
 		res := append(append([]string{}, out...), "blocked")
-		pw.Write([]byte{'x'})
-		select {
-		case <-done:
-		case <-time.After(2 * time.Second):
+		for i := 0; i < 2000; i++ {
+			pw.Write([]byte{'x'})
+			select {
+			case <-done:
+				return res
+			case <-time.After(time.Millisecond):
+			}
 		}
 		return res
 	}
